@@ -1052,6 +1052,12 @@ func (w *World) BridgeStory(o HistOpts) {
 	rcpt := w.user()
 	amt := new(big.Int).Mul(big.NewInt(int64(1+w.pick(5000))), big.NewInt(1e12))
 	tip := new(big.Int).Mul(big.NewInt(int64(w.pick(3))), big.NewInt(1e12))
+	switch w.pick(8) {
+	case 0:
+		tip = new(big.Int).Set(amt) // the whole deposit is the claimer's tip, nothing is left for the recipient
+	case 1:
+		tip = new(big.Int).Add(amt, big.NewInt(1e12)) // a tip above the amount: the deposit cannot be claimed
+	}
 	val := DepositValue(rcpt.Addr.String(), amt, tip)
 	if o.Boundary && w.pick(4) == 0 {
 		val = w.depositValue(o)
